@@ -821,6 +821,16 @@ pub fn semantic_material() -> (Vec<(&'static str, Vec<Value>)>, Vec<Route>) {
         ("suffix", vec![s(&format!("7{}", long_a)), s(&format!("8{}", long_a)), s(&format!("-{}", long_a)), s(&format!(" {}", long_a))]),
         ("middle", vec![s(&format!("{}5{}", long_a, long_a)), s(&format!("{}6{}", long_a, long_a)), s(&format!("{}.{}", long_a, long_a))]),
         ("prefix", vec![s("a.b.c"), s("a.b.d"), s("a.b"), s("a.b.c.d"), s("a\\.b.c")]),
+        ("string-form", vec![n("[null,1,2,3,4,5,6,7,8,9,10,11]"), s(",1,2,3,4,5,6,7,8,9,10,11"), n("[null,null,null,null,null,null,null,null,null]"), s(",,,,,,,,"), n("[[null,1],2,3,4,5,6,7,8,[9,null]]"), s(",1,2,3,4,5,6,7,8,9,")]),
+        // working sets a little larger than a small cache (8, 16, 32, 64 entries): distinct operands of one
+        // kind, revisited in an order that evicts each entry just before it is needed again
+        ("working-set", (0..9).map(|i| s(&format!("w{}.x", i))).collect()),
+        ("working-set", (0..17).map(|i| s(&format!("{}{} long string number {:03} \u{65e5}\u{1F600} padded to more than thirty-two bytes{}", "\u{e9}".repeat(i % 5), "\u{1F600}".repeat(i % 3), i, "!".repeat(i)))).collect()),
+        ("working-set", (0..33).map(|i| s(&format!("12345678901234567890123456789{:03}", i * 7))).collect()),
+        ("working-set", (0..65).map(|i| s(&format!("w{}.x", i * 2))).collect()),
+        ("working-set", (0..12).map(|i| Value::Array((0..10).map(|k| if k == i % 10 { Value::Null } else { json!(k + i) }).collect())).collect()),
+        ("working-set", (0..70).map(|i| json!((i as f64) * 1.5 + 9007199254740000.0)).collect()),
+        ("working-set", (0..40).map(|i| Value::Array((0..40).map(|k| s(&format!("item-{}-{}", i % 3, k + i))).collect())).collect()),
     ];
     let routes: Vec<Route> = vec![
         Box::new(|v| (json!({"+": [v]}), Value::Null)),
@@ -854,7 +864,15 @@ pub fn semantic_material() -> (Vec<(&'static str, Vec<Value>)>, Vec<Route>) {
         Box::new(|v| (json!({"map": [[v, v], {"cat": [{"var": ""}, "."]}]}), Value::Null)),
         Box::new(|v| (json!({"reduce": [[v, v], {"+": [{"var": "current"}, {"var": "accumulator"}]}, 0]}), Value::Null)),
         Box::new(|v| (json!({"merge": [v, [v]]}), Value::Null)),
-        Box::new(|v| (json!({"var": [v, "D"]}), json!({"a": {"b": {"c": 1, "d": 2}}, "12": "k12", "ab": "kab", "1": "k1", "0": "k0", "": "kempty", "true": "kt", "Infinity": "kinf", "16": "k16", "10": "k10"}))),
+        Box::new(|v| {
+            let mut d = json!({"a": {"b": {"c": 1, "d": 2}}, "12": "k12", "ab": "kab", "1": "k1", "0": "k0", "": "kempty", "true": "kt", "Infinity": "kinf", "16": "k16", "10": "k10"});
+            for i in 0..140 {
+                d[format!("w{}", i)] = json!({ "x": i, "y": [i] });
+            }
+            (json!({"var": [v, "D"]}), d)
+        }),
+        Box::new(|v| (json!({"in": ["item-1-20", v]}), Value::Null)),
+        Box::new(|v| (json!({"in": [{"var": "n"}, {"var": "h"}]}), json!({"n": "item-0-21", "h": v}))),
         Box::new(|v| (json!({"var": [v, "D"]}), json!(["e0", "e1", "e2"]))),
         Box::new(|v| (json!({"missing": [v, "zz"]}), json!({"a": {"b": {"c": 1}}, "12": 1, "ab": 1, "1": 1, "Infinity": 1}))),
         Box::new(|v| (json!({"missing_some": [1, [v, "zz"]]}), json!({"a": {"b": {"d": 1}}, "16": 1, "abc": 1}))),
@@ -876,6 +894,11 @@ pub fn semantic_material() -> (Vec<(&'static str, Vec<Value>)>, Vec<Route>) {
         Box::new(|v| (json!({"and": [true, v, {"max": ["z"]}]}), Value::Null)),
         Box::new(|v| (json!({"some": [[0, v, {"/": [1]}], {"===": [{"var": ""}, "never"]}]}), Value::Null)),
         Box::new(|v| (json!({"substr": [{"cat": [v]}, {"+": ["x"]}]}), Value::Null)),
+        Box::new(|v| (json!({"filter": [[1, 0, v, "x", 2], {"+": [{"var": ""}, {"-": ["q"]}]}]}), Value::Null)),
+        Box::new(|v| (json!({"filter": [[1, 0, 2, v, 5], {"if": [{"===": [{"var": ""}, 2]}, {"/": [1, 0]}, true]}]}), Value::Null)),
+        Box::new(|v| (json!({"all": [[1, v, 2], {"if": [{"===": [{"var": ""}, 2]}, {"%": [1, 0]}, true]}]}), Value::Null)),
+        Box::new(|v| (json!({"none": [[0, v, 2], {"if": [{"===": [{"var": ""}, 2]}, {"max": ["m"]}, false]}]}), Value::Null)),
+        Box::new(|v| (json!({"filter": [[1, 2, 3, 4, 5, 6], {"%": [{"var": ""}, 2]}]}), json!({ "unused": v }))),
     ];
     (fam, routes)
 }
@@ -910,6 +933,11 @@ pub fn semantic_key_histories(ctx: &mut Ctx, monitor: &str, judged_ops: &[&str])
     };
     let nr = routes.len();
     for (fi, (kind, members)) in fam.iter().enumerate() {
+        // a quarter of the families per shard (every family is still driven by a quarter of the shards
+        // of every lane, each time in another random order)
+        if ctx.nshards >= 4 && (fi as u64) % 4 != ctx.shard % 4 {
+            continue;
+        }
         // (1) one member through every route, in two different orders (route crossing on one operand)
         for v in members.iter() {
             let mut order: Vec<usize> = (0..nr).collect();
@@ -940,6 +968,27 @@ pub fn semantic_key_histories(ctx: &mut Ctx, monitor: &str, judged_ops: &[&str])
             let ro = ctx.rng.below(nr);
             run(ctx, ro, v);
         }
+        // (4) working sets: every member in turn on one route, three times round (least-recently-used
+        // order: each entry is needed again just after a cache of fewer entries has dropped it)
+        if *kind == "working-set" {
+            for ro in 0..nr {
+                for _round in 0..3 {
+                    for v in members.iter() {
+                        run(ctx, ro, v);
+                    }
+                }
+                // ... and with look-backs: hits between the evictions (the previous entry, the one 7 back)
+                for k in 0..members.len() {
+                    run(ctx, ro, &members[k]);
+                    if k > 0 {
+                        run(ctx, ro, &members[k - 1]);
+                    }
+                    if k >= 7 {
+                        run(ctx, ro, &members[k - 7]);
+                    }
+                }
+            }
+        }
         ctx.mark_nontrivial_key(&format!("c17:semantic-key:{}:{}", kind, fi));
         ctx.cell(&format!("semantic-key:{}", kind));
     }
@@ -951,7 +1000,33 @@ pub fn semantic_key_histories(ctx: &mut Ctx, monitor: &str, judged_ops: &[&str])
 /// order, and then 16 of them are hammered by all threads. Every result must be the one the same
 /// call gave when it ran alone. Shared scratch state behind an operator (a one-slot cache of a
 /// split string, a table of parsed paths) shows as a result that belongs to another thread's call.
-pub fn concurrent_replay(ctx: &mut Ctx, monitor: &str) {
+pub fn concurrent_replay(ctx: &mut Ctx, monitor: &str, judged_ops: &[&str]) {
+    // besides the sample of judged calls: the look-alike / working-set operands of the mixed histories
+    // through this property's operators (their results alone have just been judged there)
+    {
+        let (fam, routes) = semantic_material();
+        let mut extra: Vec<(Value, Value)> = Vec::new();
+        for (_, members) in fam.iter() {
+            for v in members.iter() {
+                for ro in routes.iter() {
+                    let (r, d) = ro(v);
+                    let op = crate::ctx::top_op(&r);
+                    if (judged_ops.is_empty() || judged_ops.contains(&op.as_str())) && !r.to_string().contains("\"log\"") {
+                        extra.push((r, d));
+                    }
+                }
+            }
+        }
+        for k in (1..extra.len()).rev() {
+            extra.swap(k, ctx.rng.below(k + 1));
+        }
+        extra.truncate(2000);
+        for (r, d) in extra {
+            let key = crate::ctx::outcome_key_plain(&observe::call(&r, &d));
+            ctx.evaluations += 1;
+            ctx.replay_pool.push((r, d, key));
+        }
+    }
     // Some monitors judge a huge document under a short stand-in (far ladders): an entry is used only
     // if the call, made once more alone, reproduces the recorded outcome.
     let taken = std::mem::take(&mut ctx.replay_pool);
